@@ -657,6 +657,11 @@ func init() {
 						if rings == nil {
 							return
 						}
+						for _, other := range in {
+							if !gen.Disjoint(rings[0], other[0]) {
+								return // members of a multi-polygon do not overlap (decided exactly; they are placed 5 units apart and reach up to 4)
+							}
+						}
 						if o == orb.CW {
 							for _, rg := range rings {
 								gen.Reverse(rg)
@@ -688,6 +693,11 @@ func init() {
 						tx, ty := t[0]+r.Uniform(-0.5, 0.5)*sc, t[1]+r.Uniform(-0.5, 0.5)*sc
 						m := r.Uniform(0.01, 0.3) * sc
 						box = [4]float64{math.Min(x0-m, tx), math.Min(y0-m, ty), math.Max(x1+m, tx), math.Max(y1+m, ty)}
+					}
+					if r.P(1, 12) {
+						// a box far away from every member: nothing remains
+						box[0], box[2] = box[0]+5000, box[2]+5000
+						c.Count("boxes_far_from_every_member", 1)
 					}
 					if snapP > 0 {
 						for i := range box {
@@ -767,6 +777,10 @@ func init() {
 							if len(pg) > 0 {
 								outNE = append(outNE, pg)
 							}
+						}
+						if len(want) == 0 && out != nil {
+							// nothing remains: said the way Ring and Polygon say it (nil), so that the generic entry returns a nil geometry
+							c.Fail("", "smartclip.MultiPolygon with every member outside the box returns an empty non-nil value instead of nothing (nil)", map[string]interface{}{"box": box, "multipolygon": in, "orientation": int(o), "output": fmt.Sprintf("%#v", out)})
 						}
 						if !(len(outNE) == 0 && len(want) == 0) && !refmodel.EqualValues(outNE, want) {
 							c.Fail("", "smartclip.MultiPolygon with no ring cut does not return exactly the polygons inside the box, unchanged", map[string]interface{}{"box": box, "multipolygon": in, "orientation": int(o), "output": sv(out)})
